@@ -35,6 +35,8 @@ DEFAULT_PROFILE = {
     "p_http": 0.9, "p_signature": 0.7, "p_routing": 0.25, "p_keyword_rpc": 0.08,
     "p_service_config": 0.8, "p_yaml": 0.3, "p_reserved_field": 0.08, "p_two_services": 0.25,
     "p_foreign_request": 0.1, "p_shuffle_numbers": 0.2, "p_additional_binding": 0.25, "p_param_name_collision": 0.0, "p_stream_of_empty": 0.06, "p_stream_routing": 0.0, "p_routing_name_clash": 0.0, "p_required_optional": 0.0, "p_body_only_in_additional": 0.0, "p_foreign_paged": 0.0, "p_case_twin_fields": 0.0, "p_deprecated_flattened": 0.0, "p_deep_path_var": 0.0,
+    # post-pass shapes (drawn from a PRNG derived from the finished spec: they do not perturb the main stream)
+    "p_empty_routing": 0.0, "p_routing_shorthand": 0.0, "p_keyword_update_field": 0.0,
     "p_auto_populate": 0.0, "p_google_api_ns": 0.0, "sig_variants": False, "p_multi_var_path": 0.0, "mixin_variants": False, "p_add_iam_methods": 0.0, "p_equal_sort_keys": 0.0, "p_reserved_path_var": 0.0, "p_local_empty": 0.0, "p_same_method_two_services": 0.0, "p_required_enum": 0.0, "p_custom_http_pattern": 0.0, "p_real_api": 0.04, "p_nested_name_ties": 0.15, "p_double_star_path": 0.0, "p_value_fields": 0.0, "p_mixed_foreign_io": 0.0, "common_file_names": ["resources"],
     "transports": ["grpc", "grpc+rest", "grpc+rest", "rest"],
     "p_numeric_enums": 0.3,
@@ -298,7 +300,75 @@ def gen_api(rng, prof=None):
         "rest" in spec["options"]["transport"]
     if cx.chance("p_yaml") or need_ops_mixin or p.get("p_auto_populate", 0) > 0:
         spec["service_yaml"] = gen_service_yaml(cx, spec, host, need_ops_mixin)
+    _post_shapes(cx, spec)
     return spec
+
+
+KEYWORD_MESSAGE_FIELDS = ["import", "from", "class", "global", "lambda"]
+
+
+def _post_shapes(cx, spec):
+    """Shapes added to a finished spec.  Their PRNG is derived from the spec itself, so enabling one of them in a
+    profile leaves every other choice of the world unchanged."""
+    import random
+    from . import rng as rng_mod
+    p = cx.p
+    if not any(p.get(k, 0) > 0 for k in ("p_empty_routing", "p_routing_shorthand", "p_keyword_update_field")):
+        return
+    prng = random.Random(int(rng_mod.digest(spec)[:16], 16))
+    methods = [(fs, s, m) for fs, s, m in all_methods(spec)]
+    if prng.random() < p.get("p_keyword_update_field", 0):
+        # AIP-134 Update whose resource field is a Python keyword (resource "Import": `Import import = 1`), so the
+        # path variable / routing field / flattened path `import.name` starts with a keyword segment
+        for fs, s, m in methods:
+            mm = re_update(m)
+            if mm is None:
+                continue
+            low = mm
+            req = next((x for f in spec["files"] for x in f.get("messages", ()) if m["input"].endswith("." + x["name"]) and "." + f["package"] + "." + x["name"] == m["input"]), None)
+            if req is None or not any(f["name"] == low for f in req["fields"]):
+                continue
+            kw = prng.choice(KEYWORD_MESSAGE_FIELDS)
+            for f in req["fields"]:
+                if f["name"] == low:
+                    f["name"] = kw
+            def ren(x):
+                return kw + x[len(low):] if x == low or x.startswith(low + ".") else x
+            if m.get("http"):
+                for b in [m["http"]] + list(m["http"].get("additional", ())):
+                    b["path"] = b["path"].replace("{" + low + ".", "{" + kw + ".")
+                    if b.get("body") == low:
+                        b["body"] = kw
+            if m.get("signatures"):
+                m["signatures"] = [",".join(ren(x) for x in sg.split(",")) for sg in m["signatures"]]
+            for rp in m.get("routing") or []:
+                rp["field"] = ren(rp["field"])
+            break
+    if prng.random() < p.get("p_routing_shorthand", 0):
+        # `{key}` without `=`: shorthand for `{key=*}`
+        cands = [m for fs, s, m in methods if m.get("routing")]
+        if cands:
+            m = prng.choice(cands)
+            f = m["routing"][0]["field"]
+            extra = {"field": f, "path_template": prng.choice(["projects/{project_id}/**", "{project_id}/**", "projects/*/{scope_id}/**"])}
+            if prng.random() < 0.5:
+                m["routing"].append(extra)
+            else:
+                m["routing"][prng.randrange(len(m["routing"]))] = extra
+    if prng.random() < p.get("p_empty_routing", 0):
+        # `option (google.api.routing) = {};`: the annotation is present and names no parameter, which is how AIP-4222
+        # switches the implicit header off for one RPC
+        cands = [m for fs, s, m in methods if m.get("routing") is None and m.get("http") and "{" in m["http"]["path"]
+                 and not m.get("client_streaming")]
+        if cands:
+            prng.choice(cands)["routing"] = []
+
+
+def re_update(m):
+    """'widget' for an Update<Noun> method whose http path / routing reads `<noun>.name`, else None."""
+    import re
+    mm = re.fullmatch(r"Update([A-Z][a-z]+)", m["name"])
+    return mm.group(1).lower() if mm else None
 
 
 def _add_auto_populated(cx, pkg, files, services):
